@@ -450,7 +450,7 @@ func c18Case(ev *vlib.Evidence, idx int) {
 
 func TestC18(t *testing.T) {
 	ev := vlib.NewEvidence("C18", "exploration",
-		"binary: the built `vipnode agent` configured on its command line (--min-peers, --strict-peers) against a fake geth/parity node over HTTP JSON-RPC and a harness pool over WebSocket, one round per start, same model; RPC-backed: the same reconciliation through the repository's real geth and parity node wrappers (ethnode.RemoteNode) against a fake Ethereum node served by go-ethereum's in-process RPC server, comparing the admin_* / parity_* calls that arrive with the model (parity peers without protocols are not peers); real agent.Agent against a recording fake Ethereum node and a scripted pool: generated local peer sets (ids directly or inside enode strings; hosts incl. loopback/unspecified/localhost/IPv6/DNS), pool replies (active as enode URIs with matching or different hosts and ports or no address; invalid as ids or URIs incl. peers that are not local), strict on/off, targets 0..10, full node or light client of either kind, pool errors at update / peer request, 1-4 rounds (optionally applying the calls to the node's peer list); oracle: set of un-trusted and of disconnected ids = pool-invalid (+ strict mismatches under the reference host normalisation), one peer request for exactly the shortfall with the right kind iff short, ConnectPeer for every returned host, nothing after a failed keep-alive; non-trivial = something had to be dropped or requested; distinct = distinct traces")
+		"binary: the built `vipnode agent` configured on its command line (--min-peers, --strict-peers) against a fake geth/parity node over HTTP JSON-RPC and a harness pool over WebSocket, one round per start, same model; RPC-backed: the same reconciliation through the repository's real geth and parity node wrappers (ethnode.RemoteNode) against a fake Ethereum node served by go-ethereum's in-process RPC server, comparing the admin_* / parity_* calls that arrive with the model (parity peers without protocols are not peers); real agent.Agent against a recording fake Ethereum node and a scripted pool: generated local peer sets (ids directly or inside enode strings; hosts incl. loopback/unspecified/localhost/IPv6/DNS), pool replies (active as enode URIs with matching or different hosts and ports or no address; invalid as ids or URIs incl. peers that are not local), strict on/off, targets 0..10, full node or light client of either kind, pool errors at update / peer request, 1-4 rounds (optionally applying the calls to the node's peer list); oracle: set of un-trusted and of disconnected ids = pool-invalid (+ strict mismatches under the reference host normalisation), one peer request for exactly the shortfall with the right kind iff short, ConnectPeer for every returned host, nothing after a failed keep-alive; non-trivial = something had to be dropped or requested; distinct = distinct traces; (faults) the node refusing every un-trust or every disconnect call in one case of five")
 	parallelCases(vlib.Scale(2500, 400000), 12, func(i int) { c18Case(ev, i) })
 	parallelCases(vlib.Scale(600, 60000), 12, func(i int) { c18RPC(ev, i) })
 	if bin, err := vlib.BuildVipnode("plain"); err != nil {
